@@ -177,7 +177,18 @@ func (vc *VC) emit(s string) { vc.lines = append(vc.lines, s) }
 func (vc *VC) def(prefix, sort, term string) string {
 	n := vc.enc.fresh(prefix)
 	q := "|" + n + "|"
+	if (sort == "Slice" || sort == "Ptr") && strings.HasPrefix(term, "(ite ") {
+		// a named constant (not a macro) keeps E-matching patterns over it free of ite
+		vc.emit(fmt.Sprintf("(declare-const %s %s)", q, sort))
+		vc.emit(fmt.Sprintf("(assert (= %s %s))", q, term))
+		return q
+	}
 	vc.emit(fmt.Sprintf("(define-fun %s () %s %s)", q, sort, term))
+	if strings.HasPrefix(term, "(mk-slice ") || strings.HasPrefix(term, "(mk-ptr ") {
+		curDefs[q] = term
+	} else if d, ok := curDefs[term]; ok {
+		curDefs[q] = d
+	}
 	return q
 }
 
